@@ -126,7 +126,8 @@ chk("C14",
     "refutes the negative model that allows swapping impl blocks of one type. TLC-simulated edit histories are then replayed on a "
     "real source file: after every step all 7 backends run in fresh processes (fresh hash seeds) and the output trees must be "
     "byte-identical as the action's frame condition demands (all files; or all files except the inserted type's and the per-crate "
-    "aggregate files). A separate step inserts a whole bridge module whose enum, struct and opaque are NAMED like base-program "
+    "aggregate files). A longer and then a shorter revision are generated into the SAME output directory and compared with a fresh "
+    "directory (the output must not depend on what an earlier run left behind). A separate step inserts a whole bridge module whose enum, struct and opaque are NAMED like base-program "
     "types (told apart by namespace or rename): every base file must be reproduced byte for byte.",
     "3-type base program (opaque, struct, enum across two bridge modules) + 2 unrelated types + 5 kinds of non-bridge items; "
     "12 (150) histories of 6 steps. Aggregate files are exempt only for insert/remove.",
@@ -144,7 +145,8 @@ chk("C17",
     "output (Native.load name, package path, <lib>_ext.cpp, acceptance of callback references, legacy-vs-spec JS, import path). "
     "spec/config/ConfigKeys.tla adds two DIFFERENT keys of one backend (KeysIndependent: assigning one key never changes another; "
     "negative model refuted) and all 64 assignments are replayed for demo_gen.relative_js_path+module_name and "
-    "kotlin.domain+lib_name, with both command-line orders.",
+    "kotlin.domain+lib_name, with both command-line orders and, for the attribute source, on two items or stacked on one; "
+    "ConfigKeysProof.tla proves KeysIndependent with TLAPS for any set of keys.",
     "Distinct values per source make the winner observable; two-valued settings are run once per candidate winner. A required key "
     "left unset ends the run with 'Missing required field' (usage error).",
     "TLA+ spec + TLC; spec->impl replay of every assignment through the real binary",
@@ -274,9 +276,12 @@ chk("C08",
     "17 field types (5.2k structs) and emits layout, leaves and slot lists. The real JS backend's output is executed in node against "
     "a stub wasm module (real WebAssembly.Memory, bump diplomat_alloc, recording proxy): bytes written by _writeToArrayBuffer, "
     "values read back by _fromFFI from the spec's byte image, DiplomatReceiveBuf size/alignment, and the arguments recorded when the "
-    "struct is passed to an export are compared with the spec for js.abi = legacy and spec. The layout half of the oracle is "
+    "struct is passed to an export are compared with the spec for js.abi = legacy and spec; newtype chains and out-struct twins of "
+    "every case are returned (a single scalar comes back without a receive buffer), and every struct is returned as the error arm "
+    "(unit success) and as the success arm (unit error) of a Result: buffer = payload + flag byte, aligned like the payload, flag "
+    "found right after the payload. The layout half of the oracle is "
     "cross-checked against host rustc (same structs with pointer-sized fields replaced by u32).",
-    "No wasm32 target here: the flattening oracle is docs/wasm_abi_quirks.md as transcribed; two divergences from the documented ABI "
+    "No wasm32 target here: the flattening oracle is docs/wasm_abi_quirks.md as transcribed; three divergences from the documented ABI "
     "are recorded as known findings. Padding bytes and absent option payloads are unspecified.",
     "TLA+ spec + TLC; spec->impl replay by executing generated JS in node; layout oracle cross-checked with rustc",
     "DESIGN.md §5 C08")
